@@ -393,7 +393,7 @@ class Env:
             except NameError:
                 return False
             if isinstance(v, logging.Logger):
-                self.assumptions_used.add("LOG: logging calls are no-ops whose arguments are not evaluated")
+                self.assumptions_used.add("LOG: logging calls are no-ops; their arguments are evaluated only where they are calls of functions with a call-site contract (others are listed individually)")
                 return True
         return False
 
